@@ -242,8 +242,14 @@ func parseContractFile(path, pkg string) (*ContractFile, error) {
 					return nil, fail("callsite needs a callee and an expression")
 				}
 				callee := rest[:sp]
-				if tr := strings.TrimSpace(rest[sp+1:]); strings.HasPrefix(tr, "track ") {
+				if tr := strings.TrimSpace(rest[sp+1:]); strings.HasPrefix(tr, "track ") || strings.HasPrefix(tr, "trackresult ") {
 					// callsite <callee> track <ghost> <type>: <expr>  — a ghost variable assigned at every call
+					// (trackresult: assigned after the call, with `result` bound)
+					kind := "track"
+					if strings.HasPrefix(tr, "trackresult ") {
+						kind = "trackresult"
+						tr = "track " + strings.TrimSpace(tr[12:])
+					}
 					fs := strings.SplitN(strings.TrimSpace(tr[6:]), ":", 2)
 					hd := strings.Fields(fs[0])
 					if len(fs) != 2 || len(hd) != 2 {
@@ -253,7 +259,7 @@ func parseContractFile(path, pkg string) (*ContractFile, error) {
 					if err != nil {
 						return nil, fail(err.Error())
 					}
-					cur.Sites = append(cur.Sites, &Clause{Kind: "track", Name: hd[0], Region: hd[1], Src: strings.TrimSpace(fs[1]), Expr: ex, Line: l.no, LoopKey: callee})
+					cur.Sites = append(cur.Sites, &Clause{Kind: kind, Name: hd[0], Region: hd[1], Src: strings.TrimSpace(fs[1]), Expr: ex, Line: l.no, LoopKey: callee})
 					continue
 				}
 				name, props, body, err := splitClauseHead(rest[sp+1:])
